@@ -149,7 +149,15 @@ where
             let a = range.start;
             let b = range.end;
 
+            let d = b - a;
+
             let mut x_temp = *x;
+            // Reflection has period `2 * d`, so values far outside are folded into one period
+            // first: reflecting them step by step takes `O(|x| / d)` passes, and none at all
+            // reach the domain once `b - (v - b)` rounds to `-v`.
+            if d > 0. && (x_temp < a - d || x_temp > b + d) {
+                x_temp = a + (x_temp - a).rem_euclid(2. * d);
+            }
             while x_temp < a || x_temp > b {
                 x_temp = match x_temp {
                     v if v < a => a + (a - v),
